@@ -1,6 +1,7 @@
 import VncModel.Cursor.ShapeLemmas
 import VncModel.Cursor.Invariant
 import VncModel.Cursor.BitLaws
+import VncModel.Cursor.Scaled
 /-!
 # C15 — Cursor handling never damages the framebuffer and shows the right cursor
 
@@ -536,5 +537,30 @@ theorem copy_never_drags_cursor (s : Sess) (c : Client) (dst : Rgn) (dx dy : Int
     obtain ⟨h1, h2⟩ := updCopyRegion_subset hx hy h
     rw [scheduleCopy_marks_cursor hcr hsh hcur hx hy h1 hbox] at h2
     simp at h2
+
+/-! ## 11. the scaled copies of the framebuffer -/
+
+/-- **scaled_copies_restored**: rfbShowCursor and rfbHideCursor both re-render the cursor box in
+EVERY server-side scaled copy of the framebuffer (`rfbScaledScreenUpdate`).  For any scaling filter
+(`Renderer`: re-rendering a box overwrites it from the source alone — the filter itself is C17's) and
+any list of scaled copies that are in sync with the framebuffer on the box: after show ; hide every
+copy is exactly what it was — the painted cursor is left behind in no client's scaled view. -/
+theorem scaled_copies_restored {α : Type} (r : Renderer α) (v : Variant) (s : Screen) (hs : s.WF) (cx cy : Nat)
+    (b : Rect) (copies : List α) (hsync : ∀ c ∈ copies, r.render s.fb b c = c) :
+    ∃ s1 s2, showCursor v s cx cy = some s1 ∧ hideCursor v s1 cx cy = some s2 ∧
+      renderAll r s2.fb b (renderAll r s1.fb b copies) = copies := by
+  obtain ⟨s1, s2, h1, h2, hfb⟩ := hide_show_id v s hs cx cy
+  refine ⟨s1, s2, h1, h2, ?_⟩
+  rw [hfb]
+  exact renderAll_restores r s.fb s1.fb b copies hsync
+
+/-- re-rendering only the updating client's own copy on hide (the change seeded as C15-7) does
+leave the painted cursor behind in the other copies -/
+theorem render_own_leaves_ghost :
+    ∃ (r : Renderer Nat) (fb fbPainted : Array Px) (b : Rect) (copies : List Nat),
+      (∀ c ∈ copies, r.render fb b c = c) ∧
+      renderOwn r fb b 0 (renderAll r fbPainted b copies) ≠ copies :=
+  ⟨⟨fun fb _ _ => fb.size, fun _ _ _ _ => rfl⟩, #[], #[1], ⟨0, 0, 1, 1⟩, [0, 0],
+    by intro c hc; simp at hc; subst hc; rfl, by decide⟩
 
 end VncModel.Props.C15
